@@ -807,6 +807,29 @@ func (e *execState) runBlock(bi int, blk *Block, prev *Snap) (*blockObs, bool) {
 		}
 	}
 
+	// L3 (numeric range): a message whose amounts are so large that an 18-decimal intermediate exceeds the
+	// 315 bits of the decimal type panics inside the handler; BaseApp recovers it and rejects the tx.
+	// Acceptance of such a message is a don't-care; the model adopts the rejection. (A panic in block
+	// processing is never excused: that is C07.)
+	overflowed := map[int]bool{}
+	for i := range obs {
+		if obs[i].Code != 0 && obs[i].Model.OK && obs[i].Copy == 0 && strings.Contains(obs[i].Log, "recovered: Int overflow") && hugeAmounts(&blk.Txs[obs[i].Idx].Msg) {
+			overflowed[obs[i].Idx] = true
+		}
+	}
+	if len(overflowed) > 0 {
+		m := bo.MPrev.Clone()
+		m.BlockIdx = bi
+		pre2, fx2, txr2 := m.StepBlockFS(blk, nil, overflowed, -1)
+		e.model = m
+		mPre, mFx = pre2, fx2
+		for i := range obs {
+			obs[i].Model = txr2[i].Res
+		}
+		bo.BeginFx = mFx
+		res.Stats.Relax["L3_numeric_range"] += len(overflowed)
+	}
+
 	// a fault that fired inside a tx: the model must skip that tx's effects
 	forcedDiverge := false
 	injectedTx := -1
@@ -826,7 +849,11 @@ func (e *execState) runBlock(bi int, blk *Block, prev *Snap) (*blockObs, bool) {
 		forced := obs[injectedTx].Idx
 		m := bo.MPrev.Clone()
 		m.BlockIdx = bi
-		pre2, fx2, txr2 := m.StepBlock(blk, nil, forced)
+		fset := map[int]bool{forced: true}
+		for k := range overflowed {
+			fset[k] = true
+		}
+		pre2, fx2, txr2 := m.StepBlockFS(blk, nil, fset, -1)
 		e.model = m
 		mPre, mFx = pre2, fx2
 		for i := range obs {
@@ -1145,4 +1172,26 @@ func (e *execState) discardedNoise(n *Node, blk *Block, txBytes [][]byte) {
 			_, _, _ = n.App.Simulate(bz)
 		}
 	}()
+}
+
+// hugeAmounts: does the message carry an amount of at least 1e57? (with prices between 1e-18 and 1e18
+// an 18-decimal product or quotient of such an amount can exceed 2^315.)
+func hugeAmounts(m *Msg) bool {
+	lim := new(big.Int).Exp(big.NewInt(10), big.NewInt(57), nil)
+	chk := func(c *Coin) bool {
+		if c == nil {
+			return false
+		}
+		v, ok := new(big.Int).SetString(c.Amount, 10)
+		return ok && v.Cmp(lim) >= 0
+	}
+	if chk(m.Coin) || chk(m.SellingCoin) {
+		return true
+	}
+	for i := range m.Coins {
+		if chk(&m.Coins[i]) {
+			return true
+		}
+	}
+	return false
 }
